@@ -6,7 +6,7 @@ PROP = "C14"
 PROPS_FILE = "props/C14.v"
 COQ_FILES = ["gen/Gen.v", "proofs/SnaProofs.v", "model/Reset.v", "proofs/ResetProofs.v", "props/C14.v"]
 TRUSTED_BASE = [
-    "Coq 8.16.1 kernel; vm_compute only in Examples and refutation witnesses; no native_compute",
+    "Coq 8.16.1 kernel; vm_compute only in Examples and in the FORWARD-TSN refutation witness; no native_compute",
     "hand-written model coq/model/Reset.v of the reset protocol for one stream identifier at one endpoint (stream.go Close / "
     "WriteSCTP gate / ReadSCTP loop / onInboundStreamReset / resetOutgoingStreamSequenceNumbers; association.go sendResetRequest, "
     "marker pop in popPendingDataChunksToSend, gatherOutboundDataAndReconfigPackets, handleReconfigParam, resetStreamsIfAny, "
@@ -24,9 +24,10 @@ ASSUMPTIONS = [
     "c14_reset_after_data: labels of write/close events are fresh and increasing (they stand for the order of the calls), "
     "fragments are non-empty (packetize); serial form needs fewer than 2^31 TSNs between a chunk and the request",
     "c14_no_lost_wakeup: a.reconfigRequests has unique keys (Go map); FORWARD-TSN excluded (refuted, see notes)",
-    "identifier reuse (c14_new_incarnation_fresh / c14_first_message_deliverable / frames): no RECONFIG parameter naming an "
-    "earlier incarnation of the identifier is delivered after the reopen; without it the statement is refuted "
-    "(c14_stale_request_refuted, c14_late_response_refuted) and the implementation shows both failures",
+    "identifier reuse: since /repo fd7385c and a186bb2 no exclusion hypothesis is needed (c14_stale_request_harmless: a request not newer "
+    "than the one performed for the identifier is answered, not performed; c14_late_response_harmless: no response touches an open "
+    "stream); the two histories that refuted the statement before are Examples with the harmless outcome and are replayed on the "
+    "implementation (TestVerifScenResetWitness). RSN comparisons are serial: fewer than 2^31 requests between two compared numbers",
     "with C05 (c05_sack_truth): senderLastTSN <=s cumulative TSN implies every TSN up to it was pushed to a reassembly queue or "
     "skipped by FORWARD-TSN; completeness of the reassembly itself is C01",
 ]
@@ -36,8 +37,9 @@ LEVEL_TEXT = ("Coq theorems over all histories of one endpoint (writes, closes, 
               "the removal of the stream happen only in a step that performs a reset with senderLastTSN <=s cumulative TSN; deferred "
               "requests are re-examined after every pop (no lost wake-up on the DATA path); ReadSCTP serves buffered messages before "
               "EOF; counters are zero after SuccessPerformed and in a re-created object; stored requests are retransmitted until a "
-              "final response. Two clauses of the property are refuted by witness on the faithful model and reproduced on the "
-              "implementation (stale request / late response after the identifier was reopened); one clause of the decomposition "
+              "final response; a request already performed for an identifier is never performed again and no response rewinds an open "
+              "stream (D24/D25, repaired in /repo, were found here as refutations of the faithful model reproduced on the "
+              "implementation: stale request / late response after the identifier was reopened); one clause of the decomposition "
               "(wake-up after FORWARD-TSN) is refuted without violating the property text. The model is tied to the code by "
               "step-commuting records of every RECONFIG delivery, marker pop, DATA/FORWARD-TSN delivery with deferred requests, "
               "timer expiry, Close, OpenStream, write and read in simulated associations.")
@@ -84,7 +86,7 @@ def both(ctx, name, test, env, summary_prefix, timeout=3000, component="reset"):
 
 
 def correspondence(ctx):
-    # corpus: the two refutation histories of ResetProofs.v and the FORWARD-TSN history, on the real associations
+    # corpus: the two (formerly refuting, now harmless) histories of ResetProofs.v and the FORWARD-TSN history, on the real associations
     both(ctx, "reset-witness-replays", "TestVerifScenResetWitness", {}, "SCENRESETWITNESS", timeout=600)
     both(ctx, "reset-forward-tsn", "TestVerifScenResetForwardTSN", {}, "SCENRESETFWD", timeout=600)
     # precondition of the theorems (nothing of an earlier incarnation delivered after a reopen): must be clean
